@@ -60,9 +60,10 @@ CASES = [
  ("C19", "basic/random.py", "        if n < 0 or n > N:\n            n = N", "        if not (0 <= n <= N):\n            n = N", "keep"),
  ("C19", "stochastic/_ranker.py", "        if n < 0 or n > N:\n            n = N", "        if not (0 < n <= N):\n            n = N", "break"),
 ]
-import py2lean_np, py2lean_scatter, py2lean_imp, py2lean_holdout, py2lean_arrow, py2lean_cand, py2lean_neg, py2lean_als, py2lean_agg
+import py2lean_np, py2lean_scatter, py2lean_imp, py2lean_holdout, py2lean_arrow, py2lean_cand, py2lean_neg, py2lean_als, py2lean_agg, py2lean_rank
 # other per-run translators: (generated file, obligations module, generator, its Unsupported)
-OTHER = {"C07agg": ("AggC07.lean", "LK.Proofs.AggC07", py2lean_agg.generate, py2lean_agg.Unsupported),
+OTHER = {"C06rank": ("RankC06.lean", "LK.Proofs.RankC06", py2lean_rank.generate, py2lean_rank.Unsupported),
+         "C07agg": ("AggC07.lean", "LK.Proofs.AggC07", py2lean_agg.generate, py2lean_agg.Unsupported),
          "C10als": ("AlsC10.lean", "LK.Proofs.AlsC10", py2lean_als.generate, py2lean_als.Unsupported),
          "C20neg": ("NegC20.lean", "LK.Proofs.NegC20", py2lean_neg.translate, py2lean_neg.Unsupported),
          "C03cand": ("CandC03.lean", "LK.Proofs.CandC03", py2lean_cand.translate, py2lean_cand.Unsupported),
@@ -74,6 +75,11 @@ OTHER = {"C07agg": ("AggC07.lean", "LK.Proofs.AggC07", py2lean_agg.generate, py2
          "C08np": ("NpC08.lean", "LK.Proofs.NpC08", py2lean_np.translate_learn, py2lean_np.Unsupported),
          "C04sc": ("ScatterC04.lean", "LK.Proofs.ScatterC04", py2lean_scatter.generate, py2lean_scatter.Unsupported)}
 CASES += [
+ ("C06rank", "metrics/ranking/_pr.py", "        return ngood / nrecs", "        return ngood / len(test)", "break"),
+ ("C06rank", "metrics/ranking/_recip.py", "            return 1.0 / (npz[0] + 1.0)", "            return 1.0 / npz[0]", "break"),
+ ("C06rank", "metrics/ranking/_rbp.py", "            max = np.sum(disc[: min(nrel, k)])", "            max = np.sum(disc[:nrel])", "break"),
+ ("C06rank", "metrics/ranking/_rbp.py", "            return rbp * (1 - self.patience)", "            return rbp", "break"),
+ ("C06rank", "metrics/ranking/_hit.py", "        return 1 if np.any(np.isin(recs.ids(), test.ids())) else 0", "        good = np.isin(recs.ids(), test.ids())\n        return 1 if np.any(good) else 0", "keep"),
  ("C07agg", "metrics/predict.py", "            tot_err += t\n            tot_n += n\n\n        if tot_n > 0:\n            return tot_err / tot_n", "            tot_err += t\n            tot_n += n\n\n        if n > 0:\n            return tot_err / tot_n", "break"),
  ("C07agg", "metrics/predict.py", "        return np.sum(err), int(err.count())", "        return np.sum(err), len(err)", "break"),
  ("C07agg", "metrics/predict.py", "        return np.sum(np.abs(err)), int(err.count())", "        return np.sum(np.abs(err)), int(ps.count())", "break"),
